@@ -293,7 +293,7 @@ func TestC04HealthStateMachine(t *testing.T) {
 		"against the real balancer in virtual time: 5 strategies x threshold 1-4 x window 1-5 s x passive on/off x active on/off (interval 2-5 s, Helios's own ticker) x 1-3 backends; monitor R1 only-after-threshold, R2 must-eject-after-threshold-in-a-row, R3 failed probe ejects / nothing else does, "+
 		"R4 no traffic inside the window (incl. late probe results), R5 traffic returns after the window under every strategy, R6 ejected never reported healthy by ListBackends, /health, /metrics; "+
 		"non-trivial = at least one ejection and a request issued after its window had elapsed")
-	sub.NontrivialFloor(0.35)
+	sub.NontrivialFloor(0.25)
 	lab.Assume("L1: scripted RoundTripper replaces http.Transport and http.DefaultTransport (probes); virtual time via testing/synctest; instants exactly on a window boundary or on the probe tick grid are avoided (ordering there is not specified)")
 	maxLen := lab.Scale(40, 100)
 	fnHolder := lab.NewFakeNet() // replaced per case; the default transport indirection is set once
